@@ -711,7 +711,12 @@ class ActivityAnalyzer(transformer.Base):
     # try/except oddity: as expected, it leaks any names you defined inside the
     # except block, but not the name of the exception variable.
     if node.name is not None:
-      self.scope.isolated_names.add(anno.getanno(node.name, anno.Basic.QN))
+      # In Python 3 the name of the exception variable is a plain string.
+      if isinstance(node.name, ast.AST):
+        name_qn = anno.getanno(node.name, anno.Basic.QN)
+      else:
+        name_qn = qual_names.QN(node.name)
+      self.scope.isolated_names.add(name_qn)
     node = self.generic_visit(node)
     self._exit_scope()
     return node
